@@ -41,6 +41,41 @@ class TapLink(T.Link):
         super().attach(conn)
 
 
+async def until(link, cond, what, serve=None, turns=6000):
+    """Link.until without wall-clock waits: a bounded number of event-loop turns (a stalled exchange must stay cheap)"""
+    for i in range(turns):
+        moved = link.pump()
+        if serve:
+            serve()
+            moved = link.pump() or moved
+        if cond():
+            return
+        if link.closed and not link.to_mini:
+            raise T.Failure('%s: asyncssh closed the connection (disconnect=%r)' % (what, link.mini.peer_disconnect))
+        await asyncio.sleep(0 if (moved or i % 25) else 0.001)
+    raise T.Failure('stalled waiting for ' + what)
+
+
+async def expect(link, msgtype, what):
+    found = []
+
+    def scan():
+        while link.cursor < len(link.mini.inbox) and not found:
+            t, p = link.mini.inbox[link.cursor]
+            link.cursor += 1
+            if t == msgtype:
+                found.append(p)
+            elif t == M.MSG_CHANNEL_DATA:
+                r = M.Reader(p, 1)
+                r.get_u32()
+                link.echoed += r.get_string()
+            elif t in (M.MSG_DISCONNECT, M.MSG_USERAUTH_FAILURE, M.MSG_CHANNEL_OPEN_FAILURE, M.MSG_CHANNEL_FAILURE):
+                raise T.Failure('%s: got message %d instead' % (what, t))
+        return bool(found)
+    await until(link, scan, what)
+    return found[0]
+
+
 def snapshot(mini):
     return {'k': mini.shared_secret, 'h': mini.exchange_hash, 'neg': dict(mini.negotiated), 'sid': mini.session_id}
 
@@ -91,17 +126,17 @@ async def session(sc):
                                         server_host_keys=[T.asyncssh_key('ssh-ed25519')], **akw)
             conn = link.server_factory('10.0.0.1', 40000)
             link.attach(conn)
-            await link.until(lambda: mini.kex_count == 1, 'initial key exchange')
+            await until(link, lambda: mini.kex_count == 1, 'initial key exchange')
             mini.send(M.client_service_request('ssh-userauth'))
-            await link.expect(M.MSG_SERVICE_ACCEPT, 'SERVICE_ACCEPT')
+            await expect(link, M.MSG_SERVICE_ACCEPT, 'SERVICE_ACCEPT')
             mini.send(M.client_auth_none('u'))
-            await link.expect(M.MSG_USERAUTH_SUCCESS, 'USERAUTH_SUCCESS')
+            await expect(link, M.MSG_USERAUTH_SUCCESS, 'USERAUTH_SUCCESS')
             mini.send(M.channel_open_session(MY_CHAN, T.WINDOW, T.MAXPKT))
-            r = M.Reader(await link.expect(M.MSG_CHANNEL_OPEN_CONFIRMATION, 'CHANNEL_OPEN_CONFIRMATION'), 1)
+            r = M.Reader(await expect(link, M.MSG_CHANNEL_OPEN_CONFIRMATION, 'CHANNEL_OPEN_CONFIRMATION'), 1)
             r.get_u32()
             chan = r.get_u32()
             mini.send(M.channel_request_shell(chan))
-            await link.expect(M.MSG_CHANNEL_SUCCESS, 'CHANNEL_SUCCESS')
+            await expect(link, M.MSG_CHANNEL_SUCCESS, 'CHANNEL_SUCCESS')
             serve = None
             sent = bytearray()
 
@@ -120,10 +155,10 @@ async def session(sc):
             connect = asyncio.ensure_future(asyncssh.connect(
                 'mem', 22, tunnel=link, known_hosts=None, username='u', client_keys=None, config=None,
                 client_factory=Cli, server_host_key_algs=['ssh-ed25519'], **akw))
-            await link.until(connect.done, 'asyncssh connect()', serve=link.serve)
+            await until(link, connect.done, 'asyncssh connect()', serve=link.serve)
             conn = connect.result()
             opening = asyncio.ensure_future(conn.create_session(T.CollectClientSession, encoding=None))
-            await link.until(opening.done, 'create_session()', serve=link.serve)
+            await until(link, opening.done, 'create_session()', serve=link.serve)
             achan, asess = opening.result()
             serve = link.serve
             sent = bytearray()
@@ -146,13 +181,13 @@ async def session(sc):
                 link.pump()
                 if serve:
                     serve()
-            await link.until(lambda: len(echoed()) >= len(sent), 'echo', serve=serve)
+            await until(link, lambda: len(echoed()) >= len(sent), 'echo', serve=serve)
             if echoed() != bytes(sent):
                 res['problems'].append(('order', 'echoed stream differs from the sent stream (%d of %d bytes)'
                                         % (len(echoed()), len(sent))))
 
         async def settle_exchange(before):
-            await link.until(lambda: mini.kex_count > before and not mini.kex_in_progress, 're-exchange', serve=serve)
+            await until(link, lambda: mini.kex_count > before and not mini.kex_in_progress, 're-exchange', serve=serve)
             res['exchanges'] += 1
             snaps.append(snapshot(mini))
             if mini.session_id != sid0:
